@@ -70,7 +70,7 @@ theorem refRun_append : ∀ (pre rest : List Seg) (k : Nat) (o : Out),
 theorem refRun_reject (libc : Libc)
     (ht : (∀ c ∈ intConvs, firing cfgNow c = [.cint]) ∧ (∀ c ∈ fltConvs, firing cfgNow c = [.cfloat]) ∧
       firing cfgNow 'c' = [.cint] ∧ firing cfgNow 's' = [.cstr] ∧ firing cfgNow 'p' = [.obj] ∧ firing cfgNow '$' = [.show])
-    (showCalls : Obj → List Call) (hs : ∀ a o, shw a o = (emitAll (primNow libc) o (showCalls a), .ok))
+    (showCalls : Obj → List Call) (hs : ∀ a ∈ args, ∀ o, shw a o = (emitAll (primNow libc) o (showCalls a), .ok))
     (pre : List Seg) (b : Str) (c : Char) (post : List Seg) (cs : List Call)
     (hcs : expectCalls showCalls args pre 0 = some cs) (hacc : AllAcc (primNow libc) cs)
     (a : Obj) (ha : args[nspecs pre]? = some a) (v : PVal) (hv : specVal c a = some v)
@@ -79,7 +79,7 @@ theorem refRun_reject (libc : Libc)
       ({ emitAll (primNow libc) o cs with calls := o.calls ++ cs ++ [⟨'%' :: (b ++ [c]), v⟩] }, .raised .FormatError) := by
   have hg := primNow_guarded libc
   have hr : (primNow libc).rej ('%' :: (b ++ [c])) v = true := hrej
-  rw [refRun_append, refRun_typed (primNow libc) shw ht showCalls hs args pre 0 cs o hcs hacc]
+  rw [refRun_append, refRun_typed (primNow libc) shw ht showCalls args hs pre 0 cs o hcs hacc]
   simp only [Nat.zero_add, refRun, ha]
   rw [dispatch_now_typed (primNow libc) shw ht c _ a v hv, call_guarded _ hg, formatTo_rej _ hg _ hr]
   simp [callOutcome, hr, emitAll_calls]
